@@ -437,24 +437,24 @@ fn tsig_compose<const M: usize, const O: usize>() {
 }
 
 // @funcs: RtypeBitmap::from_octets (window walk), used by Nsec::parse / Nsec3::parse
-// @assume: the buffer holds at most the one window (n <= 2 + len); multi-window walks are covered through the builder harnesses of C13
-// @bound: every one-window bitmap [window, len, data...] with any declared length 0..=255 inside a buffer of 0..=36 octets: accepted <=> 1 <= len <= 32 and the data is exactly len octets (RFC 4034 4.1.2)
+// @assume: the buffer holds at most the one window plus one stray octet (n <= 3 + len); multi-window walks are covered through the builder harnesses of C13
+// @bound: every one-window bitmap [window, len, data...] with any declared length 0..=255 inside a buffer of 1..=37 octets: accepted <=> 1 <= len <= 32 and the data is exactly len octets (RFC 4034 4.1.2); a lone octet or one stray trailing octet is rejected
 #[kani::proof]
 #[kani::unwind(4)]
 fn c05_bitmap_window_length_validation() {
     use domain::rdata::dnssec::RtypeBitmap;
-    let buf: [u8; 36] = kani::any();
+    let buf: [u8; 37] = kani::any();
     let n: usize = kani::any();
-    kani::assume(n >= 2 && n <= 36);
-    let len = buf[1] as usize;
-    kani::assume(n <= 2 + len);
-    // single window: the buffer ends right after it, or is too short/long
+    kani::assume(n >= 1 && n <= 37);
+    let len = if n >= 2 { buf[1] as usize } else { 0 };
+    kani::assume(n <= 3 + len);
+    // single window: the buffer ends right after it, is too short, or has one stray octet behind it
     let r = RtypeBitmap::from_octets(&buf[..n]);
     let exact = n == 2 + len;
     if exact {
         assert!(r.is_ok() == (len >= 1 && len <= 32));
-    }
-    if n < 2 + len {
+    } else {
+        // truncated window, lone octet, or a stray octet after a complete window
         assert!(r.is_err());
     }
     kani::cover!(exact && len == 32 && r.is_ok(), "full 32-octet window accepted");
